@@ -167,7 +167,7 @@ var Catalogue = []TypeCat{
 			}
 		},
 		Reads: func(base string) []proto.Req {
-			return []proto.Req{drv.GET(base + "/roi"), post(base+"/ptquery", []byte("[[1,1,1],[20,20,20],[100,1,1]]"))}
+			return []proto.Req{drv.GET(base + "/roi"), post(base+"/ptquery", []byte("[[1,1,1],[20,20,20],[100,1,1]]")), drv.GET(base + "/partition?batchsize=1")}
 		},
 		ReadOnlyPOST: []string{"ptquery"},
 	},
